@@ -604,8 +604,21 @@ class Network(Cached):
         :return: :class:`Network` instance.
         """
         #  Load to igraph Graph object
-        graph = igraph.Graph.Read(f=filename, format=fileformat, *args, **kwds)
+        graph = Network._read_graph(filename, fileformat, *args, **kwds)
         return Network.FromIGraph(graph=graph, silence_level=silence_level)
+
+    @staticmethod
+    def _read_graph(filename, fileformat=None, *args, **kwds):
+        """
+        Read an igraph Graph object written by :meth:`save`.
+        """
+        graph = igraph.Graph.Read(f=filename, format=fileformat, *args, **kwds)
+        #  The GML writer drops the underscores of attribute names
+        names = graph.vs.attribute_names()
+        if "nodeweightnsi" in names and "node_weight_nsi" not in names:
+            graph.vs["node_weight_nsi"] = graph.vs["nodeweightnsi"]
+            del graph.vs["nodeweightnsi"]
+        return graph
 
     #
     #  Graph generation methods
